@@ -219,7 +219,9 @@ class StateMatrix:
     @property
     def zeros(self):
         """zero state matrix with current shape/nstate"""
-        return self.copy([[0, 0, 0]], nstate=self.nstate, shape=self.shape, check=False)
+        sm = self.copy()
+        sm.arrays.set("states", 0 * sm.states)
+        return sm
 
     @property
     def writeable(self):
